@@ -862,6 +862,8 @@ pub fn run_generated(env: &Env, prop: &str, thorough: bool, verif_seed: u64, run
         mode: "normal".into(),
         config: cfg,
         ops,
+        sanitizer: None,
+        tier: None,
     };
     (trace, out)
 }
